@@ -730,6 +730,11 @@ func (fr *frame) execTypeAssert(x *ssa.TypeAssert, st *State) {
 		val = c.R.Unbox(IBox(v), c.R.SortOf(x.AssertedType))
 	}
 	ok = c.name("ta_ok", ok)
+	if _, isPtr := under(x.AssertedType).(*types.Pointer); isPtr {
+		// assumption (listed in evidence): interfaces never hold typed-nil pointers
+		c.assume(st, Implies(ok, Not(Eq(val, Nil))))
+		c.Defaults["interface values never hold typed-nil pointers (x.(*T) succeeds => non-nil)"] = true
+	}
 	if x.CommaOk {
 		res := c.name(x.Name(), Ite(ok, val, c.R.Zero(x.AssertedType)))
 		fr.tuples[x] = []T{res, ok}
